@@ -283,8 +283,10 @@ class XMLResource(XMLResourceLoader):
 
     def is_defused(self) -> bool:
         """Returns `True` if the XML data is defused before parsing."""
-        return self._defuse == 'remote' and is_remote_url(self.base_url) \
-            or self._defuse == 'nonlocal' and not is_local_url(self.base_url) \
+        # The resource URL if any: the base URL of an opaque URL (e.g. 'urn:x') is empty
+        url = self.url if self.url is not None else self.base_url
+        return self._defuse == 'remote' and is_remote_url(url) \
+            or self._defuse == 'nonlocal' and not is_local_url(url) \
             or self._defuse == 'always'
 
     def get_url(self, location: Union[str, bytes, Path]) -> str:
